@@ -42,12 +42,13 @@ ASSUMPTIONS = [
     "kernel (a): graphs, neighbour orders and start orders are enumerated as engine decisions; this part is exhaustive exploration, not a solver verdict",
 ]
 BOUNDS = {
-    "quick": "(b) 10 graph shapes x task kinds {E,F,K} per node (<=4 tasks) x all registration orders x {no history, one task unregistered, one task re-bound to another input; for 3 shapes also: one task registered only after that edit} x 6 assigned locations x all start-set orders; "
+    "quick": "(b) 10 graph shapes x task kinds {E,F,K} per node (<=4 tasks) x all registration orders x {no history, one task unregistered, one task re-bound to another input; for 3 shapes also: one task registered only after that edit} x 6 assigned locations x all start-set orders; the observed location may have been assigned before (before any registration, followed by verify(); or with the tasks in place, before the graph edit, verify() after it); "
              "(a) toposort on all digraphs with N<=3 nodes, all neighbour orders, all ordered start subsets",
     "thorough": "(b) same on both builds plus 2 five-task shapes; (a) N=4 with label-order neighbours and all start subsets",
 }
 OUTSIDE = "more than 5 tasks; register-time iteration order of dependency sets (covered through 'all registration orders' only)"
-REQUIRED_CLASSES = ["update_checked", "order_checked", "cyclic_checked", "idle_checked", "kernel", "late_registration"]
+REQUIRED_CLASSES = ["update_checked", "order_checked", "cyclic_checked", "idle_checked", "kernel", "late_registration",
+                    "assigned_before_registration", "assigned_before_graph_edit"]
 PROFILE_CASES = 4
 TASKS_PER_CHILD = 40
 LOCS = ["a", "b", "c", "n.x", "l0", "l1"]
@@ -164,9 +165,35 @@ def run_manager(ex, case):
         m.register(task)
         objs[i] = (kind, t, deps, task)
 
+    warm = case.get("warm")
+    L = case["loc"]
+    if warm == "pre":
+        # the location is assigned while nothing reads it yet, and the consistency check (which also
+        # drops empty index entries) is called before the tasks are registered
+        try:
+            U.assign(r, L, ex.int("v_warm"))
+            m.verify()
+        except (Abort, Inconclusive):
+            raise
+        except Exception as e:
+            ex.fail(f"assignment / verify() before any registration raised {type(e).__name__}: {e}")
+            return
+        note(ex, "assigned_before_registration")
     for i in perm:
         if i != late:
             make(i)
+    if warm == "post":
+        # the same location was already assigned once with the tasks in place (before the graph edit)
+        if any(objs[i][0] == "E" and objs[i][1] == L for i in objs):
+            return
+        try:
+            U.assign(r, L, ex.int("v_warm"))
+        except (Abort, Inconclusive):
+            raise
+        except Exception as e:
+            ex.fail(f"first assignment to {L} raised {type(e).__name__}: {e}")
+            return
+        note(ex, "assigned_before_graph_edit")
     # optional history before the observed assignment: one task is removed or re-bound
     pm = case.get("premut")
     if pm is not None:
@@ -205,8 +232,16 @@ def run_manager(ex, case):
     if late is not None:
         make(late)
         note(ex, "late_registration")
+    if warm == "post":
+        try:
+            m.verify()
+        except (Abort, Inconclusive):
+            raise
+        except Exception as e:
+            ex.fail(f"verify() after the graph edit raised {type(e).__name__}: {e}")
+            return
     # the assignment under observation
-    L = case["loc"]
+    cnt0 = list(cnt)
     aref = U.getref(r, L)
     if L in [s[0] for s in shape]:
         # assigning to a task's target through set_value replaces an ExprTask: only for undefined here
@@ -383,9 +418,12 @@ def cases(tier):
                     continue
                 for L in LOCS:
                     out.append({"mode": "manager", "build": b, "shape": name, "kinds": list(kinds), "loc": L})
+                    if n <= 3 or tier != "quick":
+                        out.append({"mode": "manager", "build": b, "shape": name, "kinds": list(kinds), "loc": L, "warm": "pre"})
                     if "K" not in kinds and (tier != "quick" or n <= 3):
                         for pm in ("unreg", "rebind"):
                             out.append({"mode": "manager", "build": b, "shape": name, "kinds": list(kinds), "loc": L, "premut": pm})
+                            out.append({"mode": "manager", "build": b, "shape": name, "kinds": list(kinds), "loc": L, "premut": pm, "warm": "post"})
                             if n == 3 and (tier != "quick" or name in ("sibling_writers", "nested", "chain")):
                                 out.append({"mode": "manager", "build": b, "shape": name, "kinds": list(kinds), "loc": L, "premut": pm, "late": True})
         # kernel
